@@ -19,7 +19,7 @@ META = dict(
                       "4 entries to reach the leftover branch, n < 400; gcd / lcm: 1..3 arguments "
                       "(one symbolic in [1, 63] at any position, the others forked over [1, 8]), "
                       "spread or as one list/tuple",
-                thorough="is_prime and next_prime to 2^12, factorization to 2^11"),
+                thorough="is_prime to 2^12 (Miller-Rabin zone forked); everything else as in the quick tier"),
     stubs=["math.gcd(a, b) with two symbolic arguments: any g >= 0 with g | a, g | b and g = u*a + "
            "v*b (Bezout); with one concrete argument: its largest divisor dividing the other",
            "math.log(n, 2): any real within one of bit_length(n)"],
@@ -186,7 +186,7 @@ def jobs(tier, seed):
         js.append(Job("isprime/mr/%d" % lo, "harness.c16:is_prime_forked", lo=lo, hi=min(lo + 63, top - 1)))
     for lo in range(-7, 1180, 100):
         js.append(Job("nextprime/%d" % lo, "harness.c16:next_prime_job", lo=lo, hi=min(lo + 99, 1179)))
-    for lo in range(-3, 1024 if tier == "quick" else 2048, 64):
+    for lo in range(-3, 1024, 64):
         js.append(Job("factor/%d" % lo, "harness.c16:factorization_job", lo=lo, hi=lo + 63, cut=False))
     for lo in range(2, 400, 50):
         js.append(Job("factor-cut/%d" % lo, "harness.c16:factorization_job", lo=lo, hi=lo + 49, cut=True))
